@@ -1150,15 +1150,33 @@ func (p Patch) copy(doc *container, op Operation, accumulatedCopySize *int64, op
 		return fmt.Errorf("copy operation failed to decode from: %w", err)
 	}
 
-	con, key := findObject(doc, from, options)
+	var val *lazyNode
 
-	if con == nil {
-		return fmt.Errorf("copy operation does not apply: doc is missing from path: \"%s\": %w", from, ErrMissing)
-	}
+	if from == "" {
+		// the whole document as it is now, not the text it was parsed from
+		val = &lazyNode{}
 
-	val, err := con.get(key, options)
-	if err != nil {
-		return fmt.Errorf("error in copy for from: '%s': %w", from, err)
+		switch sv := (*doc).(type) {
+		case *partialDoc:
+			val.doc = sv
+			val.which = eDoc
+		case *partialArray:
+			if sv != nil {
+				val.ary = sv
+				val.which = eAry
+			}
+		}
+	} else {
+		con, key := findObject(doc, from, options)
+
+		if con == nil {
+			return fmt.Errorf("copy operation does not apply: doc is missing from path: \"%s\": %w", from, ErrMissing)
+		}
+
+		val, err = con.get(key, options)
+		if err != nil {
+			return fmt.Errorf("error in copy for from: '%s': %w", from, err)
+		}
 	}
 
 	path, err := op.Path()
@@ -1166,7 +1184,7 @@ func (p Patch) copy(doc *container, op Operation, accumulatedCopySize *int64, op
 		return fmt.Errorf("copy operation failed to decode path: %w", ErrMissing)
 	}
 
-	con, key = findObject(doc, path, options)
+	con, key := findObject(doc, path, options)
 
 	if con == nil {
 		return fmt.Errorf("copy operation does not apply: doc is missing destination path: %s: %w", path, ErrMissing)
